@@ -714,6 +714,42 @@ def _c09_cases(rng, quick):
     add_softmax(batch)
     add_ce(batch, [2, 1, 0, 2])
     add_ce(batch, [0, 0, 2, 1])
+    # ---- threshold bands: every |logit| is BELOW the overflow point of exp for the dtype (ln FLT_MAX ~ 88.72,
+    # ln DBL_MAX ~ 709.78), so "no single exp can overflow", but the SUM of exponentials does unless the maximum is
+    # subtracted first; mirrored bands near the underflow points (normal and denormal minimum); equal logits of many classes
+    def band_rows():
+        out = []
+        for T, lows in ((88.72, (-87.33, -103.27)), (709.78, (-708.39, -744.44))):
+            for K in ((2, 3, 64, 512) if quick else (2, 3, 5, 8, 64, 200, 512)):
+                for d in (0.02, 0.7, 3.7):
+                    out.append([T - d] * K)                       # equal logits just below the overflow point
+                    out.append([-(T - d)] * K)                    # mirrored
+                out.append([T - 0.7, T - 0.7, T - 1.2] + [T - 1.2 - 0.01 * k for k in range(K - 2)])
+                for lo in lows:
+                    out.append([lo + 0.5] * K)
+                    out.append([lo - 0.5 + (k % 2) for k in range(K)])
+            for K in (2, 5, 17, 130):
+                for _ in range(2 if quick else 8):
+                    row = [T - rng.uniform(0.02, 8.7) for _k in range(K)]
+                    out.append(list(row))                          # narrow band, nothing above it
+                    out.append([-v for v in row])
+                    mixed = list(row)                              # ... mixed with very negative entries
+                    for _k in range(max(1, K // 3)):
+                        mixed[rng.randrange(K)] = rng.choice([-T + 0.5, -1e4, -T - 40.0, 0.0])
+                    out.append(mixed)
+        for v in (0.0, 85.0, -85.0, 700.0, -700.0, 1e4, -1e4):
+            for K in ((64, 512) if quick else (64, 200, 512)):
+                out.append([v] * K)                                # equal-logit rows of many classes
+        return out
+
+    n_fixed = len(cases)
+    for row in band_rows():
+        add_softmax([row])
+        labs = {row.index(min(row)), row.index(max(row)), rng.randrange(len(row))}
+        for lab in sorted(labs):
+            add_ce([row], [lab])
+    for c in cases[n_fixed:]:
+        c["band"] = True
     for c in cases:
         c["fixed"] = True
     for _ in range(150 if quick else 1500):
